@@ -211,7 +211,7 @@ func runeFamily(c *core.Ctx) {
 }
 
 func run(c *core.Ctx) {
-	c.Rule = "messages = all slot lists of length <=k over the slot alphabet of each type (groups, extensions, maps, oneofs, unknown fields, NaN/-0/inf/denormal floats, non-ASCII and control-character strings, arbitrary bytes); each is written with 5 option sets (Multiline, Indent, EmitASCII) and parsed back (into a fresh destination, or under EmitASCII into one that already holds another message); the result must be proto.Equal to the original with unknown fields removed recursively and have the same canonical snapshot (float bits identical, NaNs identified). Floats: every float32 bit pattern (thorough: all 2^32; quick: stride 61 plus a full structured exponent x mantissa set) and all doubles with <=2 set / cleared mantissa bits per exponent go through the text encoder and decoder and must come back bit-identical. Any with a caller-supplied Resolver: an Any whose payload type and three extensions (int32, repeated string, message) exist only in a private protoregistry.Types (dynamic types, descriptor not in the global registry): every payload of <=2 setters x 5 option sets round-trips to an equal payload"
+	c.Rule = "messages = all slot lists of length <=k over the slot alphabet of each type (groups, extensions, maps, oneofs, unknown fields, NaN/-0/inf/denormal floats, non-ASCII and control-character strings, arbitrary bytes); each is written with 5 option sets (Multiline, Indent, EmitASCII) and parsed back (into a fresh destination, or under EmitASCII into one that already holds another message); the result must be proto.Equal to the original with unknown fields removed recursively and have the same canonical snapshot (float bits identical, NaNs identified). Floats: every float32 bit pattern (thorough: all 2^32; quick: stride 61 plus a full structured exponent x mantissa set) and all doubles with <=2 set / cleared mantissa bits per exponent go through the text encoder and decoder and must come back bit-identical. Dynamic messages over a re-loaded instance of the descriptor of each extendable corpus type, with every extension (types of the global registry) set alone, round-trip under every option set. Any with a caller-supplied Resolver: an Any whose payload type and three extensions (int32, repeated string, message) exist only in a private protoregistry.Types (dynamic types, descriptor not in the global registry): every payload of <=2 setters x 5 option sets round-trips to an equal payload"
 	c.Exhaustive = true
 	floatSweep(c)
 	runeFamily(c)
@@ -287,6 +287,7 @@ func run(c *core.Ctx) {
 		}
 	}
 	anyWithPrivateResolver(c)
+	reloadedDescriptorExtensions(c)
 	c.Bounds["plans"] = planOut
 	c.Assume("EmitUnknown output is by design not parseable; it is covered by C25's no-panic clause only")
 	var _ protoreflect.Message
@@ -374,4 +375,57 @@ func anyWithPrivateResolver(c *core.Ctx) {
 	})
 	c.DistinctN(int64(n))
 	c.Bounds["any_private_resolver_payloads"] = n
+}
+
+// reloadedDescriptorExtensions: a tool that loads descriptors from a descriptor
+// set works with dynamic messages over ITS OWN instance of a message
+// descriptor, while extension types (here: the generated ones in the global
+// registry) refer to another instance with the same full name. Every
+// extension of the extendable corpus types, set alone on such a dynamic
+// message, must survive the text round trip under every option set.
+func reloadedDescriptorExtensions(c *core.Ctx) {
+	n := 0
+	for _, name := range []string{"goproto.proto.test.TestAllExtensions", "goproto.proto.testeditions.TestAllExtensions", "pb2.Extensions"} {
+		gmt, err := protoregistry.GlobalTypes.FindMessageByName(protoreflect.FullName(name))
+		if err != nil {
+			continue
+		}
+		fd2, err := protodesc.NewFile(protodesc.ToFileDescriptorProto(gmt.Descriptor().ParentFile()), protoregistry.GlobalFiles)
+		if err != nil {
+			c.Outcome("re-load skipped (file needs protolegacy): " + name)
+			continue
+		}
+		md2 := fd2.Messages().ByName(gmt.Descriptor().Name())
+		dmt := dynamicpb.NewMessageType(md2)
+		var slots []*univ.Slot
+		for _, s := range univ.Alphabet(gmt.Descriptor(), 1, univ.Opt{Thin: true, NoUnknown: true}) {
+			if s.Ext {
+				slots = append(slots, s)
+			}
+		}
+		for _, s := range slots {
+			for _, o := range optionSets {
+				n++
+				c.Eval(1)
+				sig := fmt.Sprintf("dynamic message over a re-loaded descriptor, generated extension types: type=%s case=%s %s", name, s.Name, oname(o))
+				c.Guard(func() string { return sig }, func() {
+					m := univ.Build(dmt, []*univ.Slot{s}, protoregistry.GlobalTypes)
+					tb, err := o.Marshal(m.Interface())
+					if err != nil {
+						c.Violation("prototext.Marshal fails: "+sig, err.Error())
+						return
+					}
+					back := dmt.New()
+					if err := (prototext.UnmarshalOptions{AllowPartial: true}).Unmarshal(tb, back.Interface()); err != nil {
+						c.Violation("prototext.Unmarshal rejects Marshal output: "+sig, map[string]any{"err": err.Error(), "text": string(tb)})
+						return
+					}
+					if !proto.Equal(m.Interface(), back.Interface()) {
+						c.Violation("text round trip not Equal: "+sig, string(tb))
+					}
+				})
+			}
+		}
+	}
+	c.DistinctN(int64(n))
 }
